@@ -646,7 +646,7 @@ Section Simple.
 
   Lemma bg_ok_parts f : bg_ok f = true ->
     memb ch_lf f = false /\ has_ss f = false /\ memb backslash f = false /\ memb comma f = false /\
-    first_is 34 f = false /\ first_is 34 (rev f) = false /\ last_ws f = false.
+    first_is 34 f = false /\ first_is 34 (rev f) = false.
   Proof.
     unfold bg_ok. intros H.
     repeat match type of H with _ && _ = true => let X := fresh "X" in
@@ -657,7 +657,7 @@ Section Simple.
   Lemma events_background st f : bg_ok f = true ->
     parse_events st (rline (background_line f)) = (set_ev_background_file st f, Ok).
   Proof.
-    intros H. destruct (bg_ok_parts f H) as (_ & Hss & Hb & Hc & Hq & Hr & _).
+    intros H. destruct (bg_ok_parts f H) as (_ & Hss & Hb & Hc & Hq & Hr).
     rewrite render_background.
     assert (Hline : trim_comment ([48; 44; 48; 44; 34] ++ f ++ [34; 44; 48; 44; 48])
                     = [48; 44; 48; 44; 34] ++ f ++ [34; 44; 48; 44; 48]).
@@ -885,5 +885,146 @@ Section Simple.
     rewrite colors_customs; [reflexivity|exact H2|exact H3|].
     cbn [colors_default set_co_custom_combo_colors co_custom_colors].
     apply forallb_forall. intros; reflexivity.
+  Qed.
+
+  (* ================= T04b: every body line is accepted, whatever the state ================= *)
+
+  Definition accepted {S} (parse : S -> str -> S * res) (l : line) : Prop :=
+    forall st, snd (parse st (rline l)) = Ok.
+
+  Ltac acc_lines tac :=
+    repeat match goal with
+           | |- Forall _ (_ ++ _) => apply Forall_app; split
+           | |- Forall _ (_ :: _) => constructor
+           | |- Forall _ [] => constructor
+           | |- accepted _ _ => let st := fresh "st" in intros st; tac st
+           end.
+
+  Theorem general_accepted g c : general_ok g = true -> enum4_ok (first_sample_bank c) = true ->
+    Forall (accepted parse_general) (body (enc_general g c)).
+  Proof.
+    intros Hok Hbank. unfold general_ok in Hok.
+    repeat match type of Hok with _ && _ = true => let H := fresh "H" in
+             apply andb_true_iff in Hok; destruct Hok as [Hok H] end.
+    unfold enc_general, body. cbn [app tl].
+    destruct (g_epilepsy_warning g), (0 <? g_countdown_offset g), (g_mode g =? mode_mania),
+             (g_samples_match_playback_rate g); cbn [app];
+    acc_lines ltac:(fun st =>
+      first [ rewrite general_audio by assumption
+            | rewrite general_lead_in by assumption
+            | rewrite general_preview by assumption
+            | rewrite general_countdown by assumption
+            | rewrite general_sample_set by assumption
+            | rewrite general_stack by assumption
+            | rewrite general_mode by assumption
+            | rewrite general_letterbox
+            | rewrite general_epilepsy
+            | rewrite general_countdown_offset by assumption
+            | rewrite general_special
+            | rewrite general_widescreen
+            | rewrite general_samples_match ]; reflexivity).
+  Qed.
+
+  Theorem editor_accepted e : editor_ok e = true ->
+    Forall (accepted parse_editor) (body (enc_editor e)).
+  Proof.
+    intros Hok. unfold editor_ok in Hok.
+    repeat match type of Hok with _ && _ = true => let H := fresh "H" in
+             apply andb_true_iff in Hok; destruct Hok as [Hok H] end.
+    unfold enc_editor, body, bookmarks_line. cbn [app tl].
+    destruct (ed_bookmarks e) as [|b r]; cbn [app];
+    acc_lines ltac:(fun st =>
+      first [ rewrite editor_bookmarks by assumption
+            | rewrite editor_distance by assumption
+            | rewrite editor_divisor by assumption
+            | rewrite editor_grid by assumption
+            | rewrite editor_zoom by assumption ]; reflexivity).
+  Qed.
+
+  Theorem metadata_accepted m : metadata_ok m = true ->
+    Forall (accepted parse_metadata) (body (enc_metadata m)).
+  Proof.
+    intros Hok. unfold metadata_ok in Hok.
+    repeat match type of Hok with _ && _ = true => let H := fresh "H" in
+             apply andb_true_iff in Hok; destruct Hok as [Hok H] end.
+    unfold enc_metadata, body, opt_text_line. cbn [app tl].
+    destruct (is_empty (m_title_unicode m)), (is_empty (m_artist_unicode m)), (is_empty (m_source m)),
+             (is_empty (m_tags m)), (0 <? m_beatmap_id m), (0 <? m_beatmap_set_id m); cbn [app];
+    acc_lines ltac:(fun st =>
+      first [ rewrite metadata_title by assumption
+            | rewrite metadata_title_unicode by assumption
+            | rewrite metadata_artist by assumption
+            | rewrite metadata_artist_unicode by assumption
+            | rewrite metadata_creator by assumption
+            | rewrite metadata_version by assumption
+            | rewrite metadata_source by assumption
+            | rewrite metadata_tags by assumption
+            | rewrite metadata_id by assumption
+            | rewrite metadata_set_id by assumption ]; reflexivity).
+  Qed.
+
+  Theorem difficulty_accepted d : difficulty_ok d = true ->
+    Forall (accepted parse_difficulty) (body (enc_difficulty d)).
+  Proof.
+    intros Hok. unfold difficulty_ok in Hok.
+    repeat match type of Hok with _ && _ = true => let H := fresh "H" in
+             apply andb_true_iff in Hok; destruct Hok as [Hok H] end.
+    unfold enc_difficulty, body. cbn [tl].
+    acc_lines ltac:(fun st =>
+      first [ rewrite difficulty_hp by assumption
+            | rewrite difficulty_cs by assumption
+            | rewrite difficulty_od by assumption
+            | rewrite difficulty_ar by assumption
+            | rewrite difficulty_sm by assumption
+            | rewrite difficulty_tr by assumption ]; reflexivity).
+  Qed.
+
+  Theorem events_accepted e : events_ok e = true ->
+    Forall (accepted parse_events) (body (enc_events e)).
+  Proof.
+    unfold events_ok. intros H. apply andb_true_iff in H. destruct H as [H1 H2].
+    unfold enc_events, body. cbn [app tl]. apply Forall_app. split.
+    - destruct (is_empty (ev_background_file e)); constructor; [|constructor].
+      intros st. rewrite (events_background st _ H1). reflexivity.
+    - apply Forall_forall. intros l Hl. apply in_map_iff in Hl. destruct Hl as (b & <- & Hb).
+      rewrite forallb_forall in H2. intros st. rewrite (events_break st b (H2 b Hb)). reflexivity.
+  Qed.
+
+  Lemma colors_custom_accepted x : color_name_ok (cc_name x) = true -> color_ok (cc_color x) = true ->
+    accepted parse_colors (custom_color_line x).
+  Proof.
+    unfold color_name_ok. intros Hn Hc st.
+    repeat match type of Hn with _ && _ = true => let X := fresh "X" in
+             apply andb_true_iff in Hn; destruct Hn as [Hn X]; apply negb_true_iff in X end.
+    rewrite render_custom_line. destruct (color_text_value (cc_color x)) as [A B].
+    assert (Hk : key_ok (cc_name x)) by (repeat split; [exact X0|exact (str_ok_tidy _ Hn)|exact X1]).
+    assert (Hf : colors_key_from_str (cc_name x) = Some (CKName (cc_name x))).
+    { unfold colors_key_from_str. rewrite X. reflexivity. }
+    unfold parse_colors. rewrite (kv_parse_stripped _ _ _ _ Hf Hk A B).
+    rewrite (color_value _ Hc). destruct (set_custom_color _ _ _); reflexivity.
+  Qed.
+
+  Lemma combo_lines_accepted l : forall i, forallb color_ok l = true ->
+    Forall (accepted parse_colors) (combo_lines i l).
+  Proof.
+    induction l as [|c r IH]; intros i H; [constructor|].
+    cbn [forallb] in H. apply andb_true_iff in H. destruct H as [H1 H2].
+    cbn [combo_lines]. constructor; [|apply IH; exact H2].
+    intros st.
+    change (rline ([TStr (lit colors_combo_prefix); TInt i; TStr colon_space] ++ color_toks c))
+      with (combo_key i ++ colon_space ++ rline (color_toks c)).
+    rewrite render_color, (colors_combo st i c H1). reflexivity.
+  Qed.
+
+  Theorem colors_accepted c : colors_ok c = true ->
+    Forall (accepted parse_colors) (body (enc_colors c)).
+  Proof.
+    unfold colors_ok. intros H. apply andb_true_iff in H. destruct H as [H _].
+    apply andb_true_iff in H. destruct H as [H1 H2].
+    unfold enc_colors, body. cbn [app tl]. apply Forall_app. split.
+    - apply combo_lines_accepted. exact H1.
+    - apply Forall_forall. intros l Hl. apply in_map_iff in Hl. destruct Hl as (x & <- & Hx).
+      rewrite forallb_forall in H2. specialize (H2 x Hx). apply andb_true_iff in H2. destruct H2 as [A B].
+      apply colors_custom_accepted; assumption.
   Qed.
 End Simple.
